@@ -122,7 +122,7 @@ def make_ops(rng, cfg, profile, tier):
         elif r < 0.76:
             ops.append({'op': 'EXTRACT', 'a': [rng.randrange(64), rng.randrange(64), rng.random() < 0.12]})
         elif r < 0.81:
-            ops.append({'op': 'FLATTEN', 'a': [rng.random() < 0.5]})
+            ops.append({'op': 'FLATTEN' if rng.random() < 0.7 else 'FLATTEN_DIRECT', 'a': [rng.random() < 0.5]})
         elif r < 0.87:
             ops.append({'op': 'COUNT', 'a': [rng.randrange(64), float(rng.randrange(-3, 4))]})
         elif r < 0.91:
@@ -211,7 +211,17 @@ class Session:
 
     def _expr(self, node):
         b = ref.Builder({}, share_elementary=False)
-        return b.build(node)
+        e = b.build(node)
+        self._nexpr = getattr(self, '_nexpr', 0) + 1
+        if self._nexpr % 3 == 0:
+            # the formula has been used before, on a table with the same columns at other positions (it keeps the
+            # numbering of that table until it is numbered again)
+            import biogeme.database as db
+            cols_ = list(self.db.data.columns)[::-1]
+            other = db.Database('other_layout', self.db.data[cols_].copy())
+            e.prepare(other, 0)
+            self.ctx.probe('formula numbered on another table layout before use')
+        return e
 
     def _rows_of(self, frame, what, subset_ok=True):
         """Rows of a returned frame must be existing rows (by tag), values intact."""
@@ -407,6 +417,20 @@ class Session:
                 flat = self.db.generate_flat_panel_dataframe(identical_columns=ident)
                 self._check_flat(flat, ident)
                 ctx.log(kind, bool(a[0]), list(flat.shape))
+        elif kind == 'FLATTEN_DIRECT':
+            # the function behind generate_flat_panel_dataframe called on the table as it is: the identifiers need not
+            # be sorted, nor declared as a panel
+            import biogeme.tools.database as tdb
+            gcol = 'grp'
+            ident = None
+            if a[0]:
+                ident = [c for c in self.cols if c != gcol and all(
+                    len({r[c] for r in self.rows if r[gcol] == x}) == 1 for x in set(r[gcol] for r in self.rows))]
+            flat = tdb.flatten_database(self.db.data.copy(), gcol, identical_columns=ident)
+            self._check_flat(flat, ident, col=gcol)
+            if [r[gcol] for r in self.rows] != sorted(r[gcol] for r in self.rows):
+                ctx.probe('flatten on identifiers that are not in increasing order')
+            ctx.log(kind, bool(a[0]), list(flat.shape))
         elif kind == 'COUNT':
             c = self.cols[a[0] % len(self.cols)]
             got = int(self.db.count(c, a[1]))
@@ -522,9 +546,9 @@ class Session:
             ctx.fail('I13.folds', f'validation parts do not partition the rows: {len(seen)} rows listed, '
                                   f'{len(set(seen))} distinct, table has {len(all_tags)}')
 
-    def _check_flat(self, flat, ident):
+    def _check_flat(self, flat, ident, col=None):
         ctx = self.ctx
-        col = self.panel
+        col = col or self.panel
         ids = sorted(set(r[col] for r in self.rows))
         if sorted(float(x) for x in flat.index.to_list()) != ids:
             ctx.fail('I13.flat', f'flat table rows {flat.index.to_list()[:8]} but individuals {ids[:8]}')
